@@ -256,9 +256,16 @@ impl<'a, 'd> Gen<'a, 'd> {
     fn new_var(&mut self, ty: Ty, known: bool) -> VarId {
         let spelling = if self.cfg.shadow {
             let n = if self.cfg.focus == Focus::Scopes { 3 } else { LOCAL_NAMES.len() };
-            if self.cfg.hostile_names && self.d.chance(128) {
+            let hostile = if self.cfg.hostile_names && self.d.chance(128) {
+                Some(HOSTILE_LOCALS[self.d.below(HOSTILE_LOCALS.len())])
+            } else {
+                None
+            };
+            // a local that is spelled like an already declared function would capture the
+            // calls of that function which the model renders by name
+            if let Some(h) = hostile.filter(|h| !self.used_names.contains(*h)) {
                 self.label("names:hostile-local");
-                HOSTILE_LOCALS[self.d.below(HOSTILE_LOCALS.len())].to_string()
+                h.to_string()
             } else {
                 LOCAL_NAMES[self.d.below(n)].to_string()
             }
